@@ -127,6 +127,15 @@ VH_DRIVER(parse_log){
     { std::unordered_set<uint64_t> seen; std::vector<Text> u; size_t kept=0; for(size_t i=0;i<in.size();++i) if(seen.insert(fnv(jtext(in[i]))).second){ u.push_back(in[i]); if(i<nforced) kept=u.size(); } in.swap(u); nforced=kept; }
     if((long)in.size()>want+(long)nforced){ std::vector<Text> keep(in.begin(),in.begin()+nforced); double step=(double)(in.size()-nforced)/want; for(long i=0;i<want;++i) keep.push_back(in[nforced+(size_t)(i*step)]); in.swap(keep); }
     for(auto&t:in) log_input(S,t, (S.n%8==0)? all : std::vector<int>{(int)(S.n%6)});
+    // the same component checks for explicit ranges that do NOT end at the end of the buffer: what follows the range ('/', more of a
+    // URI, a closing bracket, digits) must not leak into the components (short inputs first: a scheme, a lone '/', an authority start)
+    { std::vector<Text> shorts; for(const char*s:{"","/","s:","s:/","file:/","//","//h","//h:","s://","a","a/","?","#","//[::1]","//1.2.3.4","s:a","/a","//u@","//h:1"}) shorts.push_back(T(s));
+      for(size_t i=0;i<in.size();i+= g.thorough? 7:23) shorts.push_back(in[i]);
+      const char* trails[]={"/","//x/y","///","]",":1","12.3","a%41","?#"};
+      for(size_t i=0;i<shorts.size();++i) for(int tr=0;tr<8;++tr){ if(i>=19 && (int)((i+tr)%4)!=0) continue; Text whole=shorts[i]+T(trails[tr]); int k=(int)shorts[i].size(); int ep= (i+tr)%2? 3:5; bool a=false;
+        if(g.pair){ if(fits_char(whole)) g.event("{\"e\":\"Pair\",\"i\":0,\"a\":"+parse_event<ApiA>(S.mid,whole,ep,"mid",a,k)+",\"w\":"+parse_event<ApiW>(S.mid,whole,ep,"mid",a,k)+"}"); }
+        else { if(fits_char(whole)) g.event(parse_event<ApiA>(S.mid,whole,ep,"mid",a,k)); g.event(parse_event<ApiW>(S.mid,whole,ep,"mid",a,k)); }
+        g.count(jtext(whole)+"|"+std::to_string(k),true); } }
     // uriParseIpFourAddress: every combination of boundary octets in each position, wrong part counts, leading zeros, stray characters
     { std::vector<std::string> oc={"0","9","10","99","100","199","200","249","250","255","256","260","299","300","999","00","01","1a","","25","2"}; std::vector<Text> fam;
       for(auto&a:oc) for(auto&b:oc){ fam.push_back(T((a+"."+b+".3.4").c_str())); fam.push_back(T(("1.2."+a+"."+b).c_str())); fam.push_back(T((a+".2.3."+b).c_str())); }
